@@ -7,7 +7,7 @@ use crate::game::*;
 use crate::net::FaultCounters;
 use crate::plan::*;
 use crate::types::*;
-use crate::world::{guarded, input_value, short_loc, NodeObs, Probes, RunOut};
+use crate::world::{guarded, input_value, panic_class, short_loc, NodeObs, Probes, RunOut};
 use ggrs::{GgrsError, SessionBuilder};
 
 pub fn run<C: SimCfg>(plan: &Plan, check_distance: usize, frames: u32, expect_reject: bool) -> Result<RunOut, String> {
@@ -38,7 +38,7 @@ pub fn run<C: SimCfg>(plan: &Plan, check_distance: usize, frames: u32, expect_re
     };
     let v0 = |class: &str, text: String| Violation { class: class.into(), text, t_us: 0, node: 0, frame: 0 };
     let mut sess = match guarded(|| b.start_synctest_session()) {
-        Err(p) => return Ok(empty(vec![v0(&format!("panic@{}", short_loc(&p.1)), format!("start_synctest_session() panicked: {}", p.0))])),
+        Err(p) => return Ok(empty(vec![v0(&panic_class(&p), format!("start_synctest_session() panicked at {}: {}", short_loc(&p.1), p.0))])),
         Ok(Err(GgrsError::InvalidRequest { .. })) if expect_reject => return Ok(empty(Vec::new())),
         Ok(Err(e)) => return Ok(empty(vec![v0("c13.valid_rejected", format!("start_synctest_session() returned {e:?} for a documented-valid configuration (window {}, check distance {check_distance}, sparse {})", cfg.max_prediction, cfg.sparse))])),
         Ok(Ok(_)) if expect_reject => return Ok(empty(vec![v0("c13.invalid_accepted", format!("start_synctest_session() accepted window {}, check distance {check_distance}, sparse {}", cfg.max_prediction, cfg.sparse))])),
@@ -73,7 +73,7 @@ pub fn run<C: SimCfg>(plan: &Plan, check_distance: usize, frames: u32, expect_re
         let res = match guarded(|| sess.advance_frame()) {
             Err(p) => {
                 let loc = short_loc(&p.1);
-                viol.push(Violation { class: format!("panic@{loc}"), text: format!("SyncTestSession::advance_frame() panicked at {loc}: {}", p.0), t_us: t, node: 0, frame: game.g });
+                viol.push(Violation { class: panic_class(&p), text: format!("SyncTestSession::advance_frame() panicked at {loc}: {}", p.0), t_us: t, node: 0, frame: game.g });
                 break;
             }
             Ok(r) => r,
